@@ -379,6 +379,40 @@ add('C11',
 NOT_BUILT = "check not built yet (see DESIGN.md section 3 for the plan)"
 
 
+# Supplements of the third session (round-3 seeded changes and the audit of
+# every generator/oracle, DESIGN.md 10.4 / 10.5): appended to the texts above.
+FUZZED = {'C13': 'misfit', 'C14': 'reject, coeff', 'C16': 'oaw (thorough: cm)',
+          'C17': 'graph', 'C19': 'extract, ellipse', 'C20': 'fill, setters'}
+EXTRA = {
+ 'C01': "Also generated: re-use of model/source/field objects before the judged call, provenance of the supplied field, source and model (copy, dict, pickle, deepcopy; model input forms), dirty-boundary start fields, omitted keywords, tol 0/1e-14, up to 32 cells; the certificate uses the source as it was before any call; screen, stored log and info dict are cross-checked; Field.field must agree with its components.",
+ 'C02': "Also: the LinearOperator emg3d hands to scipy's Krylov solvers is captured and its matvec compared with the reference; amplitudes 1e-25..1e5 and zero fields; model layouts and frequency types; inputs bit-unchanged, residual repeatable.",
+ 'C03': "Also: sweep counts 0..51, a long axis, epsilon_r, amplitudes 1e+-30; checker-side block Gauss-Seidel reference over all blocks (either orientation convention, the same for all kernels); combined line codes equal the single-direction calls in x, y, z order; sweeps compose.",
+ 'C04': "Also: sub-check 'levels' (up to three successive restrictions through emg3d's own coarse objects, every pattern x anisotropy pair, shapes to 33 cells, UTM origins, prolongation back down); R[interior coarse, boundary fine] = 0; inputs unchanged; independence of call history (second grid of equal shape).",
+ 'C05': "Also: sub-check 'skeleton_ssl' (multigrid as preconditioner of bicgstab/cgs/gcrotmk: every call runs max(len sc, len lr) cycles and the patterns continue across calls), verbosity -1..5 with header / cycle-line / smoothing-line oracles, clevel to 100, documented defaults for omitted arguments, maxit to 40, plates with two deep directions.",
+ 'C06': "Also: HTI/VTI media, axis permutations, origins, mild aspect ratios, nu 0..3; exact V/F/W smoothing-visit sequence per level (spy on solver.smoothing); worst per-cycle factor; final residual recomputed independently and compared with the info dict; prefix / restart consistency. Thresholds re-measured on 800 families.",
+ 'C07': "Also: nine simulation histories before the gradient, file_dir / input / dict grids / explicit tol_gradient, frequencies in drawn order and dict inputs, independent noise shapes through constructor/setter/data dict, UTM shift, unit mu_r/epsilon_r, single-cell directions with a bound relative to g.d.",
+ 'C08': "Also: seven histories, gridding 'input'/'dict' with finer and coarser meshes, tol_forward 1e-4 vs tol_gradient 1e-10, per-block derivative bound, jtvec(rW) = gradient in every mode, data.synthetic unchanged, all solves recorded (non-converged J solve = inconclusive, bounded at 30 %).",
+ 'C09': "Also: field amplitudes 10^[-30,30] and zero, float32/complex64, UTM shift, mixed tuple forms, repeated get_magnetic_field with mu_r re-assigned, source strengths and Source.get_field; own functional from copies taken before emg3d runs; inputs bit-unchanged.",
+ 'C10': "Also: sub-check 'reuse' (one source object, several requests, copy/dict/pickle routes) against fresh objects; transverse first moments of wires and loops, reversal antisymmetry, there-and-back; point source centre of weight; magnetic point moment and frequency independence; Field metadata; radians / tuple inputs of the conversions.",
+ 'C11': "Also: solver-info slots, slots inspected before any accessor, field metadata per slot, hfield slots; extended sources / anisotropy / mappings / mu_r / epsilon_r, input and shared-dict grids, 1xN and Nx1 surveys, user names incl. colliding ones, stale files in file_dir, prefetch, gradient->jtvec and jvec->jvec, sub-check 'layered'.",
+ 'C12': "Also: gridding input/dict problems, non-default survey parameters, second vectors, operations observe / inspect / float-frequency queries / detach, rotating pair prefixes and last steps, file-based pairs; per-entry relative comparison with measured noise margins; recorded solver tolerances; options of copies equal a fresh simulation.",
+ 'C13': "Also: electrode objects compared attribute by attribute, seeded noise probes for scale and mean of all three noise types, misfit after clean + re-assigned noise parameters, residual/weights, wire/magnetic sources, UTM shifts, dict names, array layouts, compute(observed=True, ...).",
+ 'C14': "Also: default / Map-instance mapping selection, input forms per property, in-place / subset routes, decoy VolumeModel, copy/dict/pickle/deepcopy, 60-decade range, C-ordered gradients, scalar / 0-d / read-only inputs, assignment to an absent property must raise.",
+ 'C15': "Also: Model re-use (interpolate, change values in place or by assignment, interpolate again vs a fresh Model); interpolation must not modify the model.",
+ 'C16': "Also: sub-checks 'ego' (estimate_gridding_opts), 'gmc' (good_mg_cell_nr), 'hlp' (skin_depth, wavelength, cell_width); inputs unchanged and a second call identical; centre with sea surface; designed-feasible sea surface must be a node; no foreign nodes in the vector span; stretching[0] inside the survey domain; UTM centres, Map instances, verb/raise_error.",
+ 'C17': "See DESIGN.md 10.5 for the dimensions added in the audit round.",
+ 'C18': "Also: stored simulation from another variant than the survey/model files (decides --clean/--load), grids of dry runs compared, cache over load/save with untouched-file oracle, unknown keys alone / mixed / with --load, long aliases and --opt=value, template / permuted / empty sections, formatting variants of list values.",
+ 'C19': "Also: exact ellipse membership, extract selection from the checker's own ellipse, weighted-mean and width oracles, non-finite observation kinds, single-column and 1..3-layer grids, histories (setter, dict, twice), stored options vs documented defaults.",
+ 'C20': "Also: touches between setters, deepcopy/pickle, second spectrum, verb 0..4, fft and upper-case names, both coarse options, repeated setters with transient fmin > fmax, data types and layouts, near-equal input frequencies, documented PCHIP as secondary oracle.",
+}
+for _pid, (_tech, _text, _note, _ref) in list(CHECKS.items()):
+    if _pid in FUZZED:
+        _tech += ("; plus coverage-guided campaigns (atheris/libFuzzer over "
+                  "the same Hypothesis strategies and oracles, emg3d's pure-"
+                  f"Python modules instrumented) for sub-checks {FUZZED[_pid]}")
+    CHECKS[_pid] = (_tech, _text + " " + EXTRA.get(_pid, ''), _note, _ref)
+
+
 def main():
     props = [json.loads(l) for l in open(os.path.join(VERIF,
                                                       'properties.jsonl'))]
@@ -425,7 +459,9 @@ def main():
                               "and rule-based state machines over JSON-able "
                               "specs, explicit oracles (reference operators, "
                               "round trips, metamorphic relations), "
-                              "collect-then-continue, replay files",
+                              "collect-then-continue, replay files; a "
+                              "second engine (vp/fuzz.py) drives the same "
+                              "strategies with atheris/libFuzzer",
         }],
         'checks': checks,
         'not_applicable': na,
